@@ -96,15 +96,19 @@ static void run(Src &s) {
   g_case.evals = 2;
 
   const std::string D = DELIMS[pa.di].d;
+  // a third of the cases names everything relative to the working directory (= the scratch root)
+  const bool relative = s.chance(33);
+  const std::string rroot = relative ? std::string(".") : g_scr.dir;
+  if (relative) g_case.tag("relative_paths");
   auto do_read = [&](ReadResult &rr, Observed &ob, bool &have, std::vector<Observed> &hob) {
     CbCtx cb;
     if (ep == 4) {
       econf_file *kf = (econf_file *)-1;
-      rr.rc = econf_readFile(&kf, cons[0].path(g_scr.dir).c_str(), D.c_str(), "#");
+      rr.rc = econf_readFile(&kf, cons[0].path(rroot).c_str(), D.c_str(), "#");
       rr.kf = kf == (econf_file *)-1 ? nullptr : kf;
     } else {
       static const ReadMode M[6] = {RM_CONFIG, RM_CONFIG_CB, RM_DIRS, RM_HIST, RM_CONFIG, RM_DIRS_CB};
-      rr = read_tree(t, pa, g_scr.dir, M[ep], &cb);
+      rr = read_tree(t, pa, rroot, M[ep], &cb);
     }
     have = rr.kf != nullptr;
     if (have) ob = observe(rr.kf);
@@ -192,9 +196,13 @@ int main(int argc, char **argv) {
   h.per_size = 16;
   h.setup = [] {
     g_scr.init();
+    if (chdir(g_scr.dir.c_str()) != 0) perror("chdir");
     g_root = geteuid() == 0;
     if (!g_root) stats_note("not_root", "\"foreign owner/group cases dropped: not running as root\"");
   };
-  h.teardown = [] { g_scr.cleanup(); };
+  h.teardown = [] {
+    if (chdir("/") != 0) perror("chdir");
+    g_scr.cleanup();
+  };
   return engine_main(argc, argv, h);
 }
